@@ -21,15 +21,34 @@ All statements are over ℚ for the executable model `DclabModel.Feat` (which mi
 4. crosstalk `compensate_spill`, `spill_compensate`, `two_channel`, `correctCrosstalk_inverts`,
              `negative_rejected`
 5. contour   `remove_duplicates_no_adjacent_equal`, `remove_duplicates_sublist`
+6. crosstalk sub-cases `det_crosstalkMatrix`, `correctChannel_inverts` (component-wise, every
+             channel, every unit-diagonal matrix with det ≠ 0), `twoChannel_inverts`,
+             `two_channel_12/13/23`, `receiver_only_channel1/2/3_corrected` (a channel that
+             receives spill but emits none is still corrected), `triangular_det_one`,
+             `triangular_inverts`, `unchanged_receiver_channel_wrong_witness`
+7. batch brightness `batch_is_eventwise`, `batch_perc_is_eventwise`,
+             `batch_offsets_are_background_shifts` (per-event offsets = per-event background
+             shifts, avg/sd and percentiles), `batch_sd_offset_invariant`,
+             `batch_combined_is_both_single`, `batch_scalar_is_constant_array`,
+             `batch_offset_length_mismatch_raises`, `batch_nothing_selected_raises`
+8. contour cache with failing events `lcl_get_correct`, `lcl_history_correct` (every access of
+             every history, failures included, returns the contour of the requested event or
+             re-raises for exactly the events without contour), `lcl_run_outcomes`,
+             `lcl_hit_returns_own`, `lcl_failure_leaves_cache`, `lcl_bounded`, `lclInv_lengths`,
+             `early_registration_wrong_witness`; slices / index arrays: `lcl_many_correct`,
+             `lcl_op_correct`, `lcl_ops_history_correct`
+9. rotation  `rotate_second_moments` (tensor law for every contour and rational rotation),
+             `rotate_invariants` (trace, determinant), `prnc_sq_ge_one`,
+             `prnc_rotation_invariant`
 
 Not proved here (correspondence / metamorphic checks only, see `NOT_PROVED` in the harness):
 
 * `fill (get_contour mask) = mask` for *all* connected hole-free masks (marching squares is
   compiled code; the statement is a digital-topology theorem);
-* rotation invariance and `≥ 1` of `inert_ratio_prnc` (`atan2`, `sqrt`, `cos`, `sin`);
-  the full statement would read
-  `∀ θ c, prnc (rotate θ c) = prnc c ∧ 1 ≤ prnc c` with `prnc = sqrt (λ_max / λ_min)` of the
-  covariance matrix `[[mu20, mu11], [mu11, mu02]]`;
+* rotation invariance and `≥ 1` of `inert_ratio_prnc` are proved for the *square* of the ratio and
+  for rotations with rational cosine/sine (section 9); that `arctan2`/`cos`/`sin` of the code
+  deliver the angle `orient + π/2` (hypotheses `hcos`, `hsin` of `prnc_sq_ge_one`) and the final
+  `sqrt` stay outside the model (floating point, checked by the correspondence to 1e-6);
 * convergence of the volume of discretised spheres/ellipsoids to `4/3·π·a·b²`.
 -/
 namespace DclabModel.C18
@@ -373,6 +392,549 @@ theorem remove_duplicates_sublist [DecidableEq α] (c : List α) : (removeDuplic
     have h3 : (x :: r ++ [x]).dropLast = x :: r := List.dropLast_concat
     rw [h3] at h2
     simpa [removeDuplicates] using h2
+
+/-! ## 4b. crosstalk sub-cases -/
+
+/-- determinant of the unit-diagonal spill matrix -/
+theorem det_crosstalkMatrix (ct21 ct31 ct12 ct32 ct13 ct23 : Rat) :
+    det (crosstalkMatrix ct21 ct31 ct12 ct32 ct13 ct23)
+      = 1 - ct12 * ct21 - ct13 * ct31 - ct23 * ct32 + ct12 * ct23 * ct31 + ct13 * ct21 * ct32 := by
+  simp only [det, crosstalkMatrix]; ring
+
+/-- **Component-wise**: for every channel `k ∈ {1,2,3}`, every non-negative unit-diagonal spill
+matrix with `det ≠ 0` (full, two-channel, triangular, …) `correct_crosstalk(…, fl_channel=k)`
+applied to the spilled signals returns the true signal of channel `k` -/
+theorem correctChannel_inverts (k : Nat) (ct21 ct31 ct12 ct32 ct13 ct23 : Rat) (x : Vec3)
+    (hk : k = 1 ∨ k = 2 ∨ k = 3)
+    (hpos : 0 ≤ ct21 ∧ 0 ≤ ct31 ∧ 0 ≤ ct12 ∧ 0 ≤ ct32 ∧ 0 ≤ ct13 ∧ 0 ≤ ct23)
+    (h : det (crosstalkMatrix ct21 ct31 ct12 ct32 ct13 ct23) ≠ 0) :
+    (correctChannel k ct21 ct31 ct12 ct32 ct13 ct23
+      (spill (crosstalkMatrix ct21 ct31 ct12 ct32 ct13 ct23) x)).toOption = channel x k := by
+  obtain ⟨h1, h2, h3, h4, h5, h6⟩ := hpos
+  have hneg : ¬ (ct21 < 0 ∨ ct31 < 0 ∨ ct12 < 0 ∨ ct32 < 0 ∨ ct13 < 0 ∨ ct23 < 0) := by
+    simp only [not_or, not_lt]; exact ⟨h1, h2, h3, h4, h5, h6⟩
+  have key := compensate_spill _ x h
+  obtain ⟨x1, x2, x3⟩ := x
+  simp only [compensate, spill, vecMul, Prod.mk.injEq] at key
+  obtain ⟨k1, k2, k3⟩ := key
+  rcases hk with rfl | rfl | rfl
+  · have hc : ¬((1:Nat) ≠ 1 ∧ (1:Nat) ≠ 2 ∧ (1:Nat) ≠ 3) := by decide
+    simp only [correctChannel, if_neg hc, compMatrix, if_neg hneg, if_neg h, column, channel,
+      Except.toOption, Option.some.injEq, spill, vecMul]
+    conv_rhs => rw [← k1]
+    ring
+  · have hc : ¬((2:Nat) ≠ 1 ∧ (2:Nat) ≠ 2 ∧ (2:Nat) ≠ 3) := by decide
+    simp only [correctChannel, if_neg hc, compMatrix, if_neg hneg, if_neg h, column, channel,
+      Except.toOption, Option.some.injEq, spill, vecMul]
+    conv_rhs => rw [← k2]
+    ring
+  · have hc : ¬((3:Nat) ≠ 1 ∧ (3:Nat) ≠ 2 ∧ (3:Nat) ≠ 3) := by decide
+    simp only [correctChannel, if_neg hc, compMatrix, if_neg hneg, if_neg h, column, channel,
+      Except.toOption, Option.some.injEq, spill, vecMul]
+    conv_rhs => rw [← k3]
+    ring
+
+
+/-- the closed 2×2 form inverts the two-channel spill -/
+theorem twoChannel_inverts (cab cba xa xb : Rat) (h : 1 - cab * cba ≠ 0) :
+    twoChannel cab cba (xa + cba * xb) (xb + cab * xa) = (xa, xb) := by
+  simp only [twoChannel, Prod.mk.injEq]
+  constructor <;> (rw [div_eq_iff h]; ring)
+
+/-- channels 1 and 2 only (same as `two_channel`, in terms of `twoChannel`) -/
+theorem two_channel_12 (ct21 ct12 : Rat) (y : Vec3) (h : 1 - ct12 * ct21 ≠ 0) :
+    compensate (crosstalkMatrix ct21 0 ct12 0 0 0) y
+      = ((twoChannel ct12 ct21 y.1 y.2.1).1, (twoChannel ct12 ct21 y.1 y.2.1).2, y.2.2) :=
+  two_channel ct21 ct12 y h
+
+/-- channels 1 and 3 only: 2×2 formula, channel 2 untouched -/
+theorem two_channel_13 (ct31 ct13 : Rat) (y : Vec3) (h : 1 - ct13 * ct31 ≠ 0) :
+    compensate (crosstalkMatrix 0 ct31 0 0 ct13 0) y
+      = ((twoChannel ct13 ct31 y.1 y.2.2).1, y.2.1, (twoChannel ct13 ct31 y.1 y.2.2).2) := by
+  obtain ⟨y1, y2, y3⟩ := y
+  have hd : det (crosstalkMatrix 0 ct31 0 0 ct13 0) = 1 - ct13 * ct31 := by
+    simp only [det, crosstalkMatrix]; ring
+  simp only [compensate, vecMul, inv, hd, Prod.mk.injEq, twoChannel]
+  simp only [adj, crosstalkMatrix]
+  refine ⟨?_, ?_, ?_⟩ <;> (field_simp; ring)
+
+/-- channels 2 and 3 only: 2×2 formula, channel 1 untouched -/
+theorem two_channel_23 (ct32 ct23 : Rat) (y : Vec3) (h : 1 - ct23 * ct32 ≠ 0) :
+    compensate (crosstalkMatrix 0 0 0 ct32 0 ct23) y
+      = (y.1, (twoChannel ct23 ct32 y.2.1 y.2.2).1, (twoChannel ct23 ct32 y.2.1 y.2.2).2) := by
+  obtain ⟨y1, y2, y3⟩ := y
+  have hd : det (crosstalkMatrix 0 0 0 ct32 0 ct23) = 1 - ct23 * ct32 := by
+    simp only [det, crosstalkMatrix]; ring
+  simp only [compensate, vecMul, inv, hd, Prod.mk.injEq, twoChannel]
+  simp only [adj, crosstalkMatrix]
+  refine ⟨?_, ?_, ?_⟩ <;> (field_simp; ring)
+
+/-- **A channel that receives spill but emits none is still corrected** (channel 3: `ct31 = ct32
+= 0`, arbitrary `ct13`, `ct23`): channels 1, 2 follow the 2×2 formula and channel 3 is the measured
+signal minus the spill of the *corrected* channels 1 and 2 — not the measured signal itself -/
+theorem receiver_only_channel3_corrected (ct21 ct12 ct13 ct23 : Rat) (y : Vec3)
+    (h : 1 - ct12 * ct21 ≠ 0) :
+    compensate (crosstalkMatrix ct21 0 ct12 0 ct13 ct23) y
+      = ((twoChannel ct12 ct21 y.1 y.2.1).1, (twoChannel ct12 ct21 y.1 y.2.1).2,
+         y.2.2 - ct13 * (twoChannel ct12 ct21 y.1 y.2.1).1
+               - ct23 * (twoChannel ct12 ct21 y.1 y.2.1).2) := by
+  obtain ⟨y1, y2, y3⟩ := y
+  have hd : det (crosstalkMatrix ct21 0 ct12 0 ct13 ct23) = 1 - ct12 * ct21 := by
+    simp only [det, crosstalkMatrix]; ring
+  simp only [compensate, vecMul, inv, hd, Prod.mk.injEq, twoChannel]
+  simp only [adj, crosstalkMatrix]
+  refine ⟨?_, ?_, ?_⟩ <;> (field_simp; ring)
+
+/-- the same for channel 2 (`ct21 = ct23 = 0`, receives `ct12`, `ct32`) -/
+theorem receiver_only_channel2_corrected (ct31 ct13 ct12 ct32 : Rat) (y : Vec3)
+    (h : 1 - ct13 * ct31 ≠ 0) :
+    compensate (crosstalkMatrix 0 ct31 ct12 ct32 ct13 0) y
+      = ((twoChannel ct13 ct31 y.1 y.2.2).1,
+         y.2.1 - ct12 * (twoChannel ct13 ct31 y.1 y.2.2).1
+               - ct32 * (twoChannel ct13 ct31 y.1 y.2.2).2,
+         (twoChannel ct13 ct31 y.1 y.2.2).2) := by
+  obtain ⟨y1, y2, y3⟩ := y
+  have hd : det (crosstalkMatrix 0 ct31 ct12 ct32 ct13 0) = 1 - ct13 * ct31 := by
+    simp only [det, crosstalkMatrix]; ring
+  simp only [compensate, vecMul, inv, hd, Prod.mk.injEq, twoChannel]
+  simp only [adj, crosstalkMatrix]
+  refine ⟨?_, ?_, ?_⟩ <;> (field_simp; ring)
+
+/-- the same for channel 1 (`ct12 = ct13 = 0`, receives `ct21`, `ct31`) -/
+theorem receiver_only_channel1_corrected (ct32 ct23 ct21 ct31 : Rat) (y : Vec3)
+    (h : 1 - ct23 * ct32 ≠ 0) :
+    compensate (crosstalkMatrix ct21 ct31 0 ct32 0 ct23) y
+      = (y.1 - ct21 * (twoChannel ct23 ct32 y.2.1 y.2.2).1
+             - ct31 * (twoChannel ct23 ct32 y.2.1 y.2.2).2,
+         (twoChannel ct23 ct32 y.2.1 y.2.2).1, (twoChannel ct23 ct32 y.2.1 y.2.2).2) := by
+  obtain ⟨y1, y2, y3⟩ := y
+  have hd : det (crosstalkMatrix ct21 ct31 0 ct32 0 ct23) = 1 - ct23 * ct32 := by
+    simp only [det, crosstalkMatrix]; ring
+  simp only [compensate, vecMul, inv, hd, Prod.mk.injEq, twoChannel]
+  simp only [adj, crosstalkMatrix]
+  refine ⟨?_, ?_, ?_⟩ <;> (field_simp; ring)
+
+/-- triangular spill matrices have determinant 1: always invertible -/
+theorem triangular_det_one (a b c : Rat) :
+    det (crosstalkMatrix 0 0 a 0 b c) = 1 ∧ det (crosstalkMatrix a b 0 c 0 0) = 1 := by
+  constructor <;> (simp only [det, crosstalkMatrix]; ring)
+
+/-- **Triangular matrices (spill in one direction only) are inverted exactly**, without any
+determinant hypothesis, for all non-negative coefficients -/
+theorem triangular_inverts (a b c : Rat) (x : Vec3) (ha : 0 ≤ a) (hb : 0 ≤ b) (hc : 0 ≤ c) :
+    correctCrosstalk 0 0 a 0 b c (spill (crosstalkMatrix 0 0 a 0 b c) x) = .ok x ∧
+    correctCrosstalk a b 0 c 0 0 (spill (crosstalkMatrix a b 0 c 0 0) x) = .ok x := by
+  have h0 : (0 : Rat) ≤ 0 := le_refl 0
+  constructor
+  · exact correctCrosstalk_inverts 0 0 a 0 b c x ⟨h0, h0, ha, h0, hb, hc⟩
+      (by rw [(triangular_det_one a b c).1]; exact one_ne_zero)
+  · exact correctCrosstalk_inverts a b 0 c 0 0 x ⟨ha, hb, h0, hc, h0, h0⟩
+      (by rw [(triangular_det_one a b c).2]; exact one_ne_zero)
+
+/-- a shortcut that hands back the measured signal of a channel that emits no spill is wrong as
+soon as that channel receives spill: true signals (2, 0, 1), half of channel 1 spills into
+channel 3, measured (2, 0, 2); the correction of channel 3 is 1, not the measured 2 -/
+theorem unchanged_receiver_channel_wrong_witness :
+    spill (crosstalkMatrix 0 0 0 0 (1/2) 0) (2, 0, 1) = (2, 0, 2) ∧
+    correctChannel 3 0 0 0 0 (1/2) 0 (2, 0, 2) = .ok 1 ∧
+    correctChannel 4 0 0 0 0 (1/2) 0 (2, 0, 2) = .error .channel := by decide +kernel
+
+/-! ## 3b. batch brightness with per-event offsets -/
+
+/-- **The batch call is the single-event definition event by event**: with one offset per event
+`bright_bc_avg[k]` is the mean of event `k` minus ITS offset, `bright_bc_sd[k]` the deviation of
+event `k` (no offset) -/
+theorem batch_is_eventwise (ev : List (List Px)) (os : List Rat) (hl : os.length = ev.length) :
+    brightBcBatch ev (.array os) true true
+      = some [List.zipWith (fun px o => brightAvg px (some o)) ev os, ev.map brightVar] := by
+  have hl' : os.length = (ev.map (fun px => mean (masked px))).length := by simpa using hl
+  simp only [brightBcBatch, Bool.not_true, Bool.and_self, Bool.false_eq_true, if_false, if_true,
+    subOff_array_eq_len _ _ hl', List.zipWith_map_left]
+  rfl
+
+/-- percentiles likewise -/
+theorem batch_perc_is_eventwise (ev : List (List Px)) (os : List Rat) (hl : os.length = ev.length) :
+    brightPercBatch ev (.array os)
+      = some (List.zipWith (fun px o => brightPerc 10 px (some o)) ev os,
+              List.zipWith (fun px o => brightPerc 90 px (some o)) ev os) := by
+  have h10 : os.length = (ev.map (fun px => percentile 10 (masked px))).length := by simpa using hl
+  have h90 : os.length = (ev.map (fun px => percentile 90 (masked px))).length := by simpa using hl
+  simp only [brightPercBatch, subOff_array_eq_len _ _ h10, subOff_array_eq_len _ _ h90,
+    List.zipWith_map_left]
+  rfl
+
+/-- **Per-event offsets are per-event background shifts** (avg and sd together): raising the
+background of event `k` by `os[k]` gives what `bg_off = os` returns -/
+theorem batch_offsets_are_background_shifts (ev : List (List Px)) (os : List Rat)
+    (hl : os.length = ev.length) (hne : ∀ px ∈ ev, masked px ≠ []) :
+    brightBcBatch (bgShiftEach os ev) .none true true = brightBcBatch ev (.array os) true true ∧
+    brightPercBatch (bgShiftEach os ev) .none = brightPercBatch ev (.array os) := by
+  have hl' : os.length = (ev.map (fun px => mean (masked px))).length := by simpa using hl
+  have h10 : os.length = (ev.map (fun px => percentile 10 (masked px))).length := by simpa using hl
+  have h90 : os.length = (ev.map (fun px => percentile 90 (masked px))).length := by simpa using hl
+  have hm := zipWith_map_shift (fun px => mean (masked px))
+    (fun d px h => by simp only [masked_bg_shift, mean_shift d _ h]) os ev hl hne
+  have hv := map_const_shift (fun px => variance (masked px))
+    (fun d px => by simp only [masked_bg_shift, variance_shift]) os ev hl
+  have hp10 := zipWith_map_shift (fun px => percentile 10 (masked px))
+    (fun d px h => by simp only [masked_bg_shift, percentile_shift 10 d _ h]) os ev hl hne
+  have hp90 := zipWith_map_shift (fun px => percentile 90 (masked px))
+    (fun d px h => by simp only [masked_bg_shift, percentile_shift 90 d _ h]) os ev hl hne
+  constructor
+  · simp only [brightBcBatch, Bool.not_true, Bool.and_self, Bool.false_eq_true, if_false, if_true,
+      subOff_none, subOff_array_eq_len _ _ hl', hm, hv]
+  · simp only [brightPercBatch, subOff_none, subOff_array_eq_len _ _ h10, subOff_array_eq_len _ _ h90,
+      hp10, hp90]
+
+/-- the deviation never sees the offset — whatever container, even one of the wrong length -/
+theorem batch_sd_offset_invariant (ev : List (List Px)) (off : BgOff) :
+    brightBcBatch ev off false true = some [ev.map brightVar] := by
+  simp only [brightBcBatch, Bool.not_false, Bool.not_true, Bool.and_false, Bool.false_eq_true,
+    if_false]
+  rfl
+
+/-- **The combined call `ret_data="avg,sd"` is the pair of the two single calls** -/
+theorem batch_combined_is_both_single (ev : List (List Px)) (off : BgOff) :
+    brightBcBatch ev off true true
+      = (brightBcBatch ev off true false).bind (fun a =>
+          (brightBcBatch ev off false true).map (fun s => a ++ s)) := by
+  simp only [brightBcBatch, Bool.not_true, Bool.not_false, Bool.and_self, Bool.and_false,
+    Bool.and_true, Bool.false_eq_true, if_false, if_true]
+  cases subOff (ev.map fun px => mean (masked px)) off <;> rfl
+
+/-- a scalar offset is the constant per-event array -/
+theorem batch_scalar_is_constant_array (ev : List (List Px)) (o : Rat) (a s : Bool) :
+    brightBcBatch ev (.scalar o) a s = brightBcBatch ev (.array (List.replicate ev.length o)) a s ∧
+    brightPercBatch ev (.scalar o) = brightPercBatch ev (.array (List.replicate ev.length o)) := by
+  have hl (g : List Px → Rat) : (List.replicate ev.length o).length = (ev.map g).length := by simp
+  have hz (g : List Px → Rat) : List.zipWith (· - ·) (ev.map g) (List.replicate ev.length o)
+      = (ev.map g).map (· - o) := by
+    have := zipWith_sub_replicate (ev.map g) o
+    simpa using this
+  constructor
+  · simp only [brightBcBatch, subOff_array_eq_len _ _ (hl _), hz, subOff_scalar]
+  · simp only [brightPercBatch, subOff_array_eq_len _ _ (hl _), hz, subOff_scalar]
+
+/-- offsets of the wrong length (neither one per event nor a single value) are rejected -/
+theorem batch_offset_length_mismatch_raises (ev : List (List Px)) (os : List Rat) (s : Bool)
+    (h : os.length ≠ ev.length) (h1 : os.length ≠ 1) :
+    brightBcBatch ev (.array os) true s = none ∧ brightPercBatch ev (.array os) = none := by
+  have hs (g : List Px → Rat) : subOff (ev.map g) (.array os) = none := by
+    simp only [subOff, List.length_map, h, if_false]
+    match os, h1 with
+    | [], _ => rfl
+    | [_], h1 => simp at h1
+    | _ :: _ :: _, _ => rfl
+  constructor
+  · simp only [brightBcBatch, Bool.not_true, Bool.false_and, Bool.false_eq_true, if_false, if_true, hs]
+  · simp only [brightPercBatch, hs]
+
+/-- `ret_data` without "avg" and "sd" is rejected -/
+theorem batch_nothing_selected_raises (ev : List (List Px)) (off : BgOff) :
+    brightBcBatch ev off false false = none := rfl
+
+example : brightBcBatch [[⟨true, 5, 2⟩, ⟨true, 7, 2⟩], [⟨true, 9, 1⟩, ⟨false, 0, 0⟩]] (.array [1, 10]) true true
+    = some [[3, -2], [1, 0]] := by decide +kernel
+example : brightPercBatch [[⟨true, 5, 2⟩, ⟨true, 7, 2⟩]] (.array [1, 2]) = none := by decide +kernel
+example : twoChannel (1/5) (1/10) (3 + 1/10 * 4) (4 + 1/5 * 3) = (3, 4) := by decide +kernel
+
+/-! ## 6. the contour cache with failing events -/
+
+/-- the two deques are in step: position by position `contours` holds the contour of the event
+named by `indices` (in particular no event without contour is registered) -/
+def LclInv (f : Nat → Except E C) (d : Lcl C) : Prop :=
+  d.indices.map f = d.contours.map Except.ok
+
+theorem lclInv_empty (f : Nat → Except E C) : LclInv f Lcl.empty := rfl
+
+/-- one access, whatever its outcome: the observable result is `get_contour(masks[i])` (contour
+or exception, never a stray `IndexError`) and the deques stay in step -/
+theorem lcl_get_correct (f : Nat → Except E C) (m : Nat) (d : Lcl C) (i : Nat) (h : LclInv f d) :
+    (lclGet f m d i).2.result = some (f i) ∧ LclInv f (lclGet f m d i).1 := by
+  unfold lclGet
+  cases hq : lclFind i d.indices with
+  | none =>
+    cases hf : f i with
+    | error e => exact ⟨rfl, h⟩
+    | ok c =>
+      refine ⟨rfl, ?_⟩
+      unfold LclInv at *
+      simp only [lclPush_map, h, hf]
+  | some q =>
+    have hi : d.indices[q]? = some i := lclFind_get i d.indices q hq
+    have hc : (d.contours.map Except.ok)[q]? = some (f i) := by
+      rw [← h, List.getElem?_map, hi]; rfl
+    rw [List.getElem?_map] at hc
+    cases hcq : d.contours[q]? with
+    | none => rw [hcq] at hc; simp at hc
+    | some c =>
+      rw [hcq] at hc
+      simp only [Option.map_some, Option.some.injEq] at hc
+      simp only [hcq]
+      refine ⟨by simp only [LclOut.result, hc], ?_⟩
+      unfold LclInv at *
+      simp only [lclPush_map, h, ← hc]
+
+/-- **Every access of every history returns the contour of the requested event** — or re-raises
+the exception of `get_contour` for exactly the events that have no contour — for every capacity,
+every failure pattern `f` and every history, including histories in which accesses failed -/
+theorem lcl_history_correct (f : Nat → Except E C) (m : Nat) :
+    ∀ (hist : List Nat) (d : Lcl C), LclInv f d → ∀ i,
+      (lclGet f m (lclRun (lclGet f m) d hist).1 i).2.result = some (f i) := by
+  intro hist
+  induction hist with
+  | nil => intro d h i; exact (lcl_get_correct f m d i h).1
+  | cons j js ih =>
+    intro d h i
+    simp only [lclRun]
+    exact ih _ (lcl_get_correct f m d j h).2 i
+
+/-- all outcomes recorded along a history are the right ones -/
+theorem lcl_run_outcomes (f : Nat → Except E C) (m : Nat) :
+    ∀ (hist : List Nat) (d : Lcl C), LclInv f d →
+      (lclRun (lclGet f m) d hist).2.map LclOut.result = hist.map (fun i => some (f i)) ∧
+      LclInv f (lclRun (lclGet f m) d hist).1 := by
+  intro hist
+  induction hist with
+  | nil => intro d h; exact ⟨rfl, h⟩
+  | cons j js ih =>
+    intro d h
+    have h1 := lcl_get_correct f m d j h
+    have h2 := ih _ h1.2
+    refine ⟨?_, h2.2⟩
+    simp only [lclRun, List.map_cons, h1.1, h2.1]
+
+/-- **a hit returns the contour of the requested event**, after every history from the empty
+list -/
+theorem lcl_hit_returns_own (f : Nat → Except E C) (m : Nat) (hist : List Nat) (i : Nat) (c : C)
+    (hhit : (lclGet f m (lclRun (lclGet f m) Lcl.empty hist).1 i).2 = .hit c) : f i = .ok c := by
+  have := lcl_history_correct f m hist Lcl.empty (lclInv_empty f) i
+  rw [hhit] at this
+  simpa [LclOut.result] using this.symm
+
+/-- an access to an event without contour raises and leaves both deques untouched -/
+theorem lcl_failure_leaves_cache (f : Nat → Except E C) (m : Nat) (d : Lcl C) (i : Nat) (e : E)
+    (h : LclInv f d) (hf : f i = .error e) : lclGet f m d i = (d, .raised e) := by
+  have hnot : lclFind i d.indices = none := by
+    cases hq : lclFind i d.indices with
+    | none => rfl
+    | some q =>
+      exfalso
+      have hi : d.indices[q]? = some i := lclFind_get i d.indices q hq
+      have hc : (d.contours.map Except.ok)[q]? = some (f i) := by
+        rw [← h, List.getElem?_map, hi]; rfl
+      rw [List.getElem?_map, hf] at hc
+      cases hcq : d.contours[q]? with
+      | none => rw [hcq] at hc; simp at hc
+      | some c => rw [hcq] at hc; simp at hc
+  unfold lclGet
+  simp only [hnot, hf]
+
+/-- the deques have equal length and never exceed `max_events` -/
+theorem lcl_bounded (f : Nat → Except E C) (m : Nat) (hm : m ≠ 0) (d : Lcl C) (i : Nat)
+    (hi : d.indices.length ≤ m) (hc : d.contours.length ≤ m) :
+    (lclGet f m d i).1.indices.length ≤ m ∧ (lclGet f m d i).1.contours.length ≤ m := by
+  unfold lclGet
+  split
+  · split
+    · exact ⟨hi, hc⟩
+    · exact ⟨lclPush_length_le m _ _ hm hi, lclPush_length_le m _ _ hm hc⟩
+  · split
+    · exact ⟨hi, hc⟩
+    · exact ⟨lclPush_length_le m _ _ hm hi, lclPush_length_le m _ _ hm hc⟩
+
+theorem lclInv_lengths (f : Nat → Except E C) (d : Lcl C) (h : LclInv f d) :
+    d.indices.length = d.contours.length := by
+  have := congrArg List.length h
+  simpa using this
+
+/-- registering the index before the contour is computed breaks the statement: after the failing
+event 1 a hit on event 2 hands out the contour of event 3 -/
+theorem early_registration_wrong_witness :
+    let f : Nat → Except Unit Nat := fun i => if i = 1 then .error () else .ok (100 + i)
+    ((lclRun (lclGetEarly f 0) Lcl.empty [1, 2, 3, 2]).2.map LclOut.result
+      = [some (.error ()), some (.ok 102), some (.ok 103), some (.ok 103)]) ∧
+    ((lclRun (lclGetEarly f 0) Lcl.empty [1, 2, 2]).2.map LclOut.result
+      = [some (.error ()), some (.ok 102), none]) ∧
+    ((lclRun (lclGet f 0) Lcl.empty [1, 2, 3, 2]).2.map LclOut.result
+      = [some (.error ()), some (.ok 102), some (.ok 103), some (.ok 102)]) := by
+  decide
+
+example : (lclRun (lclGet (fun i => if i = 1 then (.error () : Except Unit Nat) else .ok (100 + i)) 2)
+    Lcl.empty [0, 1, 2, 0, 3, 0]).1.indices = [3, 0] := by decide
+
+/-- a slice / index-array access returns the contours of exactly the requested events in order, or
+re-raises the exception of the first requested event without contour; the deques stay in step -/
+theorem lcl_many_correct (f : Nat → Except E C) (m : Nat) :
+    ∀ (is : List Nat) (d : Lcl C), LclInv f d →
+      (lclGetMany f m d is).2 = ownContours f is ∧ LclInv f (lclGetMany f m d is).1 := by
+  intro is
+  induction is with
+  | nil => intro d h; exact ⟨rfl, h⟩
+  | cons i r ih =>
+    intro d h
+    have h1 := lcl_get_correct f m d i h
+    simp only [lclGetMany, ownContours]
+    cases hg : lclGet f m d i with
+    | mk d1 o =>
+      rw [hg] at h1
+      have hr := ih d1 h1.2
+      cases o with
+      | raised e =>
+        have : f i = .error e := by simpa [LclOut.result] using h1.1.symm
+        simp only [this]; exact ⟨trivial, h1.2⟩
+      | indexError => simp [LclOut.result] at h1
+      | hit c =>
+        have : f i = .ok c := by simpa [LclOut.result] using h1.1.symm
+        simp only [this]
+        cases hm : lclGetMany f m d1 r with
+        | mk d2 x =>
+          rw [hm] at hr
+          simp only at hr
+          rw [← hr.1]
+          cases x <;> exact ⟨rfl, hr.2⟩
+      | computed c =>
+        have : f i = .ok c := by simpa [LclOut.result] using h1.1.symm
+        simp only [this]
+        cases hm : lclGetMany f m d1 r with
+        | mk d2 x =>
+          rw [hm] at hr
+          simp only at hr
+          rw [← hr.1]
+          cases x <;> exact ⟨rfl, hr.2⟩
+
+theorem lcl_op_correct (f : Nat → Except E C) (m : Nat) (d : Lcl C) (o : LclOp) (h : LclInv f d) :
+    (lclOp f m d o).2 = ownContours f o.events ∧ LclInv f (lclOp f m d o).1 := by
+  cases o with
+  | many is => exact lcl_many_correct f m is d h
+  | int i =>
+    have h1 := lcl_get_correct f m d i h
+    simp only [lclOp, LclOp.events, ownContours]
+    cases hg : lclGet f m d i with
+    | mk d1 o =>
+      rw [hg] at h1
+      cases o with
+      | raised e =>
+        have : f i = .error e := by simpa [LclOut.result] using h1.1.symm
+        simp only [this]; exact ⟨trivial, h1.2⟩
+      | indexError => simp [LclOut.result] at h1
+      | hit c =>
+        have : f i = .ok c := by simpa [LclOut.result] using h1.1.symm
+        simp only [this]; exact ⟨trivial, h1.2⟩
+      | computed c =>
+        have : f i = .ok c := by simpa [LclOut.result] using h1.1.symm
+        simp only [this]; exact ⟨trivial, h1.2⟩
+
+/-- **Every user-level access (integer, slice, index array) of every history** — failures and
+partially completed slices included — returns the contours of exactly the requested events or
+re-raises for the first requested event without contour -/
+theorem lcl_ops_history_correct (f : Nat → Except E C) (m : Nat) :
+    ∀ (hist : List LclOp) (d : Lcl C), LclInv f d →
+      (lclOps f m d hist).2 = hist.map (fun o => ownContours f o.events) ∧
+      LclInv f (lclOps f m d hist).1 := by
+  intro hist
+  induction hist with
+  | nil => intro d h; exact ⟨rfl, h⟩
+  | cons o r ih =>
+    intro d h
+    have h1 := lcl_op_correct f m d o h
+    have h2 := ih _ h1.2
+    refine ⟨?_, h2.2⟩
+    simp only [lclOps, List.map_cons, h1.1, h2.1]
+
+example : (lclOps (fun i => if i = 1 then (.error () : Except Unit Nat) else .ok (100 + i)) 2
+    Lcl.empty [.many [0, 1, 2], .int 0, .many [2, 0]]).2
+    = [.error (.raised ()), .ok [100], .ok [102, 100]] := by decide
+
+/-! ## 1b. rotation: the principal inertia ratio -/
+
+/-- **Rotation covariance of the second central moments**: for every contour and every rational
+rotation `(c, s)`, `c² + s² = 1`, the area is unchanged and `(mu20, mu11, mu02)` of the rotated
+contour is the rotated tensor -/
+theorem rotate_second_moments (e c s : Rat) (h : c * c + s * s = 1) (cont : List Pt) :
+    rotatedSecond e c s cont =
+      ((momentsCore e cont).m00,
+       c * c * (momentsCore e cont).mu20 - 2 * (c * s) * (momentsCore e cont).mu11
+         + s * s * (momentsCore e cont).mu02,
+       c * s * ((momentsCore e cont).mu20 - (momentsCore e cont).mu02)
+         + (c * c - s * s) * (momentsCore e cont).mu11,
+       s * s * (momentsCore e cont).mu20 + 2 * (c * s) * (momentsCore e cont).mu11
+         + c * c * (momentsCore e cont).mu02) := rotatedSecond_eq e c s h cont
+
+/-- trace and determinant of the inertia tensor — hence its eigenvalues and their ratio, the
+square of the principal inertia ratio — do not change under rotation -/
+theorem rotate_invariants (e c s : Rat) (h : c * c + s * s = 1) (cont : List Pt) :
+    (rotatedSecond e c s cont).1 = (momentsCore e cont).m00 ∧
+    (rotatedSecond e c s cont).2.1 + (rotatedSecond e c s cont).2.2.2
+      = (momentsCore e cont).mu20 + (momentsCore e cont).mu02 ∧
+    (rotatedSecond e c s cont).2.1 * (rotatedSecond e c s cont).2.2.2
+        - (rotatedSecond e c s cont).2.2.1 * (rotatedSecond e c s cont).2.2.1
+      = (momentsCore e cont).mu20 * (momentsCore e cont).mu02
+        - (momentsCore e cont).mu11 * (momentsCore e cont).mu11 := by
+  rw [rotatedSecond_eq e c s h cont]
+  generalize (momentsCore e cont).mu20 = A
+  generalize (momentsCore e cont).mu11 = B
+  generalize (momentsCore e cont).mu02 = C
+  refine ⟨rfl, ?_, ?_⟩
+  · simp only; linear_combination (A + C) * h
+  · simp only; linear_combination (c * c + s * s + 1) * (A * C - B * B) * h
+
+/-- **The principal inertia ratio is at least one**: when `(c, s)` are cosine and sine of the
+angle `orient + π/2` with `orient = ½·atan2(2·mu11, mu02 − mu20)` — i.e. `cos 2α = −(mu02 − mu20)/R`,
+`sin 2α = −2·mu11/R` for some `R > 0` — the rotated contour has `mu11 = 0` (principal axes),
+`mu20 − mu02 = R > 0`, and therefore `mu20/mu02 ≥ 1` whenever `mu02 > 0` -/
+theorem prnc_sq_ge_one (e c s R : Rat) (cont : List Pt) (h : c * c + s * s = 1) (hR : 0 < R)
+    (hcos : (c * c - s * s) * R = -((momentsCore e cont).mu02 - (momentsCore e cont).mu20))
+    (hsin : 2 * (c * s) * R = -(2 * (momentsCore e cont).mu11)) :
+    (rotatedSecond e c s cont).2.2.1 = 0 ∧
+    (rotatedSecond e c s cont).2.1 - (rotatedSecond e c s cont).2.2.2 = R ∧
+    (0 < (rotatedSecond e c s cont).2.2.2 →
+      1 ≤ (rotatedSecond e c s cont).2.1 / (rotatedSecond e c s cont).2.2.2) := by
+  rw [rotatedSecond_eq e c s h cont]
+  generalize (momentsCore e cont).mu20 = A at *
+  generalize (momentsCore e cont).mu11 = B at *
+  generalize (momentsCore e cont).mu02 = C at *
+  have h11 : c * s * (A - C) + (c * c - s * s) * B = 0 := by
+    linear_combination (-(c * s)) * hcos + ((c * c - s * s) / 2) * hsin
+  have hd : (c * c * A - 2 * (c * s) * B + s * s * C) - (s * s * A + 2 * (c * s) * B + c * c * C) = R := by
+    linear_combination (-(c * c - s * s)) * hcos + (-(2 * (c * s))) * hsin
+      + (R * (c * c + s * s + 1)) * h
+  refine ⟨h11, hd, ?_⟩
+  intro hpos
+  simp only at hpos ⊢
+  rw [le_div_iff₀ hpos]
+  linarith
+
+/-- **Rotation invariance of the principal inertia ratio**: bring a contour and any rotated copy
+of it to principal axes (`mu11 = 0`, larger moment first) by rational rotations; the resulting
+`(mu20, mu02)` — and so `mu20/mu02`, the square of `inert_ratio_prnc` — coincide -/
+theorem prnc_rotation_invariant (e c s c1 s1 c2 s2 : Rat) (cont : List Pt)
+    (h : c * c + s * s = 1) (h1 : c1 * c1 + s1 * s1 = 1) (h2 : c2 * c2 + s2 * s2 = 1)
+    (d1 : (rotatedSecond e c1 s1 cont).2.2.1 = 0)
+    (o1 : (rotatedSecond e c1 s1 cont).2.2.2 ≤ (rotatedSecond e c1 s1 cont).2.1)
+    (d2 : (rotatedSecond e c2 s2 (cont.map (rot c s))).2.2.1 = 0)
+    (o2 : (rotatedSecond e c2 s2 (cont.map (rot c s))).2.2.2
+            ≤ (rotatedSecond e c2 s2 (cont.map (rot c s))).2.1) :
+    (rotatedSecond e c1 s1 cont).2.1 = (rotatedSecond e c2 s2 (cont.map (rot c s))).2.1 ∧
+    (rotatedSecond e c1 s1 cont).2.2.2 = (rotatedSecond e c2 s2 (cont.map (rot c s))).2.2.2 := by
+  have hcomp : rotatedSecond e c2 s2 (cont.map (rot c s))
+      = rotatedSecond e (c2 * c - s2 * s) (s2 * c + c2 * s) cont := by
+    simp only [rotatedSecond, rot_rot]
+  rw [hcomp] at d2 o2 ⊢
+  have i1 := rotate_invariants e c1 s1 h1 cont
+  have i2 := rotate_invariants e _ _ (rot_unit c s c2 s2 h h2) cont
+  apply ordered_pair_unique _ _ _ _ (by rw [i1.2.1, i2.2.1]) _ o1 o2
+  have p1 := i1.2.2
+  have p2 := i2.2.2
+  rw [d1] at p1
+  rw [d2] at p2
+  linarith
+
+/-- a 2×1 rectangle turned by the 3-4-5 angle: turning it back gives `mu11 = 0`, ratio² = 4 -/
+example : rotatedSecond (1/1000000) (3/5) (-4/5)
+    ([(0,0),(2,0),(2,1),(0,1)].map (rot (3/5) (4/5))) = (2, 2/3, 0, 1/6) := by decide +kernel
+example : prncSq (1/1000) (1/1000000) (3/5) (-4/5)
+    ([(0,0),(2,0),(2,1),(0,1)].map (rot (3/5) (4/5))) = some 4 := by decide +kernel
 
 /-! ## non-vacuity -/
 
